@@ -65,7 +65,7 @@ def main():
         json.dump(m, f, indent=1)
 
 
-HOOK_COMMITS = []
+HOOK_COMMITS = ["3177503"]
 
 if __name__ == '__main__':
     main()
